@@ -249,7 +249,8 @@ func (c *Ctx) checkEntryLevels(r *Report, ro *Roles) {
 			r.Fail(key, c.pos(E.Pos()), "expected exactly one call to the recorder, found %d", len(recLv))
 			continue
 		}
-		want := "param:level"
+		want := "param:" + paramOfType(E, isLevelType)
+		tagParam := "param:" + paramOfType(E, isTagPtr)
 		if g, ok := apiLevel[E.Name()]; ok {
 			want = "global:" + g
 		} else {
@@ -276,10 +277,10 @@ func (c *Ctx) checkEntryLevels(r *Report, ro *Roles) {
 				bad = append(bad, fmt.Sprintf("gate range %s is not the level range of the logger handed to the recorder (%s)", gateRg[0], recLg[0]))
 			}
 		}
-		if !strings.Contains(recLg[0], "getLogger(param:tag)") && !strings.Contains(recLg[0], "param:tag") {
+		if !strings.Contains(recLg[0], tagParam) {
 			bad = append(bad, "logger handed to the recorder is not the one serving the tag: "+recLg[0])
 		}
-		if tagIdx >= 0 && (len(recTag) == 0 || !strings.HasPrefix(recTag[0], "param:tag")) {
+		if tagIdx >= 0 && (len(recTag) == 0 || !strings.HasPrefix(recTag[0], tagParam)) {
 			bad = append(bad, "tag name handed to the recorder is not the tag's own name")
 		}
 		if len(bad) > 0 {
@@ -373,7 +374,7 @@ func (c *Ctx) checkLevelTable(r *Report) {
 	eachInstr(regL, func(in ssa.Instruction) {
 		if mu, ok := in.(*ssa.MapUpdate); ok {
 			p := c.prov(mu.Key, &Frame{Fn: regL})
-			if strings.Contains(p.String(), "strings.ToUpper(param:name)") {
+			if strings.Contains(p.String(), "strings.ToUpper(param:"+paramOfType(regL, isStringType)+")") {
 				okW = true
 			}
 		}
@@ -1331,7 +1332,9 @@ func checkC10(c *Ctx, r *Report) {
 			continue
 		}
 		// the gate required: G(invoke:GetLevel(<logger>), <level>)=true where level is the entry's level
-		wantLv := "param:level"
+		wantLv := "param:" + paramOfType(E, isLevelType)
+		tagParam := "param:" + paramOfType(E, isTagPtr)
+		ctxParam := "param:" + paramOfType(E, isContext)
 		if g, ok := apiLevel[E.Name()]; ok {
 			wantLv = "global:" + g
 		}
@@ -1340,7 +1343,7 @@ func checkC10(c *Ctx, r *Report) {
 			nEffects++
 			ok := false
 			for _, g := range strings.Split(e.gates, "\x1f") {
-				if strings.HasPrefix(g, "G(invoke:GetLevel(") && strings.HasSuffix(g, ","+wantLv+")=true") && strings.Contains(g, "param:tag") {
+				if strings.HasPrefix(g, "G(invoke:GetLevel(") && strings.HasSuffix(g, ","+wantLv+")=true") && strings.Contains(g, tagParam) {
 					ok = true
 				}
 			}
@@ -1348,7 +1351,7 @@ func checkC10(c *Ctx, r *Report) {
 			if !ok {
 				st = "UNGATED at " + e.pos
 			}
-			if strings.HasPrefix(e.what, "hook:") && e.ctxArg != "param:ctx" {
+			if strings.HasPrefix(e.what, "hook:") && e.ctxArg != ctxParam {
 				st = "called with " + e.ctxArg + " instead of the caller's context at " + e.pos
 			}
 			if strings.HasPrefix(e.what, "dynamic:") {
@@ -1530,19 +1533,30 @@ func checkC10(c *Ctx, r *Report) {
 
 func (c *Ctx) checkEventPopulation(r *Report, R *ssa.Function) {
 	fr := &Frame{Fn: R}
+	ctxP := "param:" + paramOfType(R, isContext)
+	lvlP := "param:" + paramOfType(R, isLevelType)
+	tagP := "param:" + paramOfType(R, isStringType)
+	fldP := "param:" + paramOfType(R, func(t types.Type) bool {
+		sl, ok := t.Underlying().(*types.Slice)
+		if !ok {
+			return false
+		}
+		n, ok := sl.Elem().(*types.Named)
+		return ok && n.Obj().Name() == "Field"
+	})
 	want := map[string]func(p string) bool{
 		"Time": func(p string) bool {
-			return strings.HasPrefix(p, "phi:phi(") && strings.Contains(p, "time.Now()") && strings.Contains(p, "dynamic(global:TimeNow, param:ctx)")
+			return strings.HasPrefix(p, "phi:phi(") && strings.Contains(p, "time.Now()") && strings.Contains(p, "dynamic(global:TimeNow, "+ctxP+")")
 		},
 		"CtxString": func(p string) bool {
-			return strings.HasPrefix(p, "phi:phi(") && strings.Contains(p, "dynamic(global:StringFromContext, param:ctx)")
+			return strings.HasPrefix(p, "phi:phi(") && strings.Contains(p, "dynamic(global:StringFromContext, "+ctxP+")")
 		},
 		"CtxFields": func(p string) bool {
-			return strings.HasPrefix(p, "phi:phi(") && strings.Contains(p, "dynamic(global:FieldsFromContext, param:ctx)")
+			return strings.HasPrefix(p, "phi:phi(") && strings.Contains(p, "dynamic(global:FieldsFromContext, "+ctxP+")")
 		},
-		"Level":  func(p string) bool { return p == "param:level" },
-		"Tag":    func(p string) bool { return p == "param:tag" },
-		"Fields": func(p string) bool { return p == "param:fields" },
+		"Level":  func(p string) bool { return p == lvlP },
+		"Tag":    func(p string) bool { return p == tagP },
+		"Fields": func(p string) bool { return p == fldP },
 	}
 	got := map[string]string{}
 	eachInstr(R, func(in ssa.Instruction) {
